@@ -224,7 +224,7 @@ impl C11 {
             cx.count_n("fault.nonascii-line", 2);
         }
         // a word that BEGINS with such a character as the last thing in the input (optionally one blank or one more multi-byte character after it)
-        for _ in 0..12 {
+        for _ in 0..if toks.is_empty() { 0 } else { 12 } {
             let (a, _) = *cx.rng.pick(&toks);
             let s = *cx.rng.pick(NONASCII);
             let tail = *cx.rng.pick(&["", " ", "é", "x", "9", "\n"]);
